@@ -273,7 +273,12 @@ func c04Upper(c *core.Ctx) {
 		return
 	}
 	cond, _ := t.InstrCond(st)
-	b, unbound, dup := bindDeps(t, cond, matchers{"ovl": has("types.overlaps(e1, e2)"), "same": has("hasSameFilter(e1, e2)")})
+	mOvl := matchers{"ovl": has("types.overlaps(e1, e2)"), "same": has("hasSameFilter(e1, e2)")}
+	b, unbound, dup := bindDeps(t, cond, mOvl)
+	if miss := missingBound(b, mOvl); len(miss) > 0 {
+		c.Violated("e2._upper is recorded", at(c, st), fmt.Sprintf("recording the upper file does not depend on %v any more", miss))
+		return
+	}
 	if dup != "" || len(unbound) > 0 {
 		c.Violated("e2._upper is recorded", at(c, st), fmt.Sprintf("recording the upper file also depends on %v: when e1's file already exists the shorter entry is not bound below it and can land in an earlier file", unbound))
 		return
